@@ -2,6 +2,9 @@
 // "no dlclose outside the deleters", ...). They are extracted on every run; each zero-expected scanner must fire on its
 // fixture, otherwise the check is analysis-broken (a rule that matches nothing passes vacuously forever).
 // Nothing here is ever executed or linked.
+#include <algorithm>
+#include <atomic>
+#include <chrono>
 #include <cstdlib>
 #include <cstring>
 #include <dlfcn.h>
@@ -81,6 +84,69 @@ inline void observing(std::ostream& s, const std::string& text)
     s << text;
 }
 inline void write_only(std::ostream& s, const std::string& text) { s << text << std::endl; }
+
+// R09.6: hand-written locks. broken_spin retries the CAS with the value a failed attempt stored into `expected`
+struct broken_spin
+{
+    std::atomic<bool> locked_{ false };
+    void lock()
+    {
+        bool expected = false;
+        while (!locked_.compare_exchange_weak(expected, true))
+        {
+            while (locked_.load())
+            {
+            }
+        }
+    }
+    void unlock() { locked_.store(false); }
+};
+struct good_spin
+{
+    std::atomic<bool> locked_{ false };
+    void lock()
+    {
+        bool expected = false;
+        while (!locked_.compare_exchange_weak(expected, true))
+        {
+            expected = false;
+        }
+    }
+    void unlock() { locked_.store(false); }
+};
+struct spin_sinks
+{
+    broken_spin& bad_mutex() { static broken_spin m; return m; }
+    good_spin& good_mutex() { static good_spin m; return m; }
+    void with_broken(const std::string& r) { std::lock_guard<broken_spin> l(bad_mutex()); std::cout << r; }
+    void with_good(const std::string& r) { std::lock_guard<good_spin> l(good_mutex()); std::cout << r; }
+    void with_timeout(const std::string& r) { static std::timed_mutex m; std::unique_lock<std::timed_mutex> l(m, std::chrono::seconds(1)); std::cout << r; }
+};
+
+// R17.2: a scan from the right
+inline void replace_from_back(std::string& str, const std::string& what, const std::string& with)
+{
+    auto pos = str.rfind(what);
+    while (pos != std::string::npos && !what.empty())
+    {
+        str.replace(pos, what.length(), with);
+        if (pos == 0)
+            break;
+        pos = str.rfind(what, pos - 1);
+    }
+}
+
+// R06.3: range algorithms writing into the storage of a fixed_vector-like class (bounded / unbounded)
+struct bulk_writer
+{
+    std::unique_ptr<int[]> data_;
+    std::size_t size_ = 0;
+    std::size_t capacity_ = 0;
+    int* begin() { return &data_[0]; }
+    int* end() { return &data_[size_]; }
+    void refill_bounded(int v) { std::fill(begin(), end(), v); }
+    void copy_unbounded(const std::vector<int>& src) { std::copy(src.begin(), src.end(), begin()); }
+};
 
 // R14.4: static state written on a parse-like path
 static int call_counter = 0;
